@@ -230,7 +230,7 @@ Qed.
 Lemma limiters0_ok c : all_ok (limiters0 c) [].
 Proof.
   unfold limiters0, all_ok. repeat (apply Forall_app; split);
-    try (destruct (c_n c)); try (destruct (c_L c)); try (destruct (c_s c)); repeat constructor;
+    try (destruct (c_n c)); try (destruct (c_L c)); try (destruct (c_s c)); try (destruct (c_replace c)); repeat constructor;
     cbn; unfold len; cbn; try lia.
 Qed.
 
@@ -246,16 +246,16 @@ Qed.
 Definition within_limits (c : config) (b : list arg) : Prop :=
   (forall n, c_n c = Some n -> len b <= n) /\
   (forall l, c_L c = Some l -> b = [] \/ 1 + count_hard (removelast b) <= l) /\
-  (forall s, c_s c = Some s -> isum 0 (c_init c) + total 0 b <= s /\ Forall (fun a => cost a <= usize_max) b) /\
+  (forall s, c_s c = Some s -> c_replace c = false -> isum 0 (c_init c) + total 0 b <= s /\ Forall (fun a => cost a <= usize_max) b) /\
   (isum 8 (c_init c) + total 8 b <= c_sys c /\ Forall (fun a => cost a <= max_single_arg) b).
 
 Lemma all_ok_within c b : all_ok (map (advi (c_init c)) (limiters0 c)) b <-> within_limits c b.
 Proof.
   unfold within_limits, limiters0, all_ok.
-  destruct (c_n c) as [n|], (c_L c) as [l|], (c_s c) as [s|]; cbn [app map advi];
+  destruct (c_n c) as [n|], (c_L c) as [l|], (c_s c) as [s|], (c_replace c); cbn [app map advi];
     repeat rewrite Forall_cons_iff; rewrite Forall_nil_iff; cbn [lim_ok]; rewrite ?N.add_0_l;
     (split; [intros H; decompose [and] H; clear H; repeat split; intros; try discriminate;
              repeat match goal with E : Some _ = Some _ |- _ => injection E as <- end; auto
             |intros (H1 & H2 & H3 & H4 & H5); repeat split; auto;
-             try (apply H1; reflexivity); try (apply H2; reflexivity); try (apply (H3 _ eq_refl))]).
+             try (apply H1; reflexivity); try (apply H2; reflexivity); try (apply (H3 _ eq_refl eq_refl))]).
 Qed.
